@@ -8,8 +8,9 @@
    different PYTHONHASHSEED, each process reading its own variant of the same documents (mapping keys in a different
    order) through a shuffled os.listdir/os.scandir/glob:
      (i)  the command lines of the stage-0 / stage-1 components and the layered user variables must be the spec's;
-          three entry points: FlowIRExperimentConfiguration.__init__, .parametrize (via WorkflowGraph.graphFromPackage)
-          and Experiment.experimentFromPackage;
+          entry points, every case: FlowIRExperimentConfiguration.__init__ (parsed package document) and .parametrize of a
+          loaded package; every k-th order-sensitive case in addition: ExperimentConfigurationFactory.configurationForExperiment
+          on the package directory, WorkflowGraph.graphFromPackage and Experiment.experimentFromPackage (new instance);
      (ii) the canonical dumps must be byte-identical across the processes.
 3. a sample of richer packages (replication + aggregation, platforms, environments, a DSL 2 namespace with duplicate step
    names, memoization chain with input/data files) is instantiated in every process: component names, edges, resolved
